@@ -38,7 +38,11 @@ ASSUMPTIONS = ['single-contig kernels get_pileup / get_boolean_mask / merge_inte
                'the file makes IndexedFasta raise KeyError at HEAD (notes/C10.fix-5.diff, flag FASTA_WITH_NEW_IGNORED)',
                'translator reading: element-wise NumPy expressions per element; np.any/np.all guards as per-element '
                'predicates; np.searchsorted as a call of the model function with the side passed on']
-PARTIAL = ['C10_clip_partial / C10_clip_one_sided_refuted: GenomicIntervalsFull.clip equals the single-contig clip (two-sided since '
+PARTIAL = ['C10_strandedness_preserved / C10_prog_spec hold for extended_to_size only when it passes the strandedness flag on; at HEAD it '
+           'does not (C10_strandedness_lost_refuted, model constant extend_keeps_strand = false, notes/C10.fix-6.diff): stranded programs '
+           'with an extended_to_size step are generated only with the strand-insensitive consumer get_location(center) '
+           '(flag EXTEND_KEEPS_STRAND)',
+           'C10_clip_partial / C10_clip_one_sided_refuted: GenomicIntervalsFull.clip equals the single-contig clip (two-sided since '
            'fc449e4) only for intervals reaching their chromosome range (start <= size, 0 <= stop); an interval entirely outside '
            'comes out inverted — outside the quantifier (intervals of a chromosome), not generated; notes/C10.fix-4.diff',
            'C10_seq_partial: stranded sequence extraction is right unless every interval has length 1 (C10_seq_refuted; known finding)',
@@ -59,7 +63,7 @@ FASTA_WITH_NEW_IGNORED = True
 # GenomicIntervalsFull.extended_to_size() drops the strandedness flag at HEAD (from_intervals(.., genome_context) without
 # is_stranded): stranded programs with an extended_to_size step followed by a strand-sensitive use are generated only once
 # notes/C10.fix-6.diff is committed (then set this to True and extend_keeps_strand := true in Model/C10.v).
-EXTEND_KEEPS_STRAND = False
+EXTEND_KEEPS_STRAND = True
 
 ERR = {'AssertionError': 1, 'AttributeError': 2, 'IndexError': 3, 'GenomeError': 4, 'Exception': 5,
        'ComputationException': 6}
